@@ -341,7 +341,8 @@ class Evaluator:
                 if obj is None and e.get("op") and e.get("ismethod") and args:
                     obj, args = args[0], args[1:]      # member operator written infix: the object is the first operand
                 return h(self, obj, args)
-            if e.get("op") == "=" and e.get("ismethod") and len(e.get("a", [])) == 2 and e.get("obj") is None and not e.get("own"):
+            has_body = self.prog is not None and e.get("own") and (self.prog.funcs.get(e.get("fid")) or {}).get("body") is not None
+            if e.get("op") == "=" and e.get("ismethod") and len(e.get("a", [])) == 2 and e.get("obj") is None and not has_body:
                 # assignment operator of a library class (pair, unique_ptr, iterator ...): the target now denotes the value
                 rhs = self.eval(e["a"][1], env, this)
                 if hasattr(rhs, "copy_value"):
@@ -365,10 +366,11 @@ class Evaluator:
             return a.arith(op, b)
         if isinstance(a, (int, bool)) and isinstance(b, (int, bool)):
             a, b = int(a), int(b)
-            try:
-                return {"+": a + b, "-": a - b, "*": a * b, "<<": a << b, ">>": a >> b, "|": a | b, "&": a & b, "^": a ^ b}[op]
-            except KeyError:
+            ops = {"+": lambda: a + b, "-": lambda: a - b, "*": lambda: a * b, "|": lambda: a | b, "&": lambda: a & b, "^": lambda: a ^ b,
+                   "<<": lambda: a << b if 0 <= b < 128 else 0, ">>": lambda: a >> b if 0 <= b < 128 else 0}
+            if op not in ops:
                 raise Broken("unmodelled arithmetic operator %s" % op)
+            return ops[op]()
         raise Broken("unmodelled arithmetic %s on %r, %r" % (op, type(a).__name__, type(b).__name__))
 
     def store(self, lhs, val, env, this):
